@@ -179,6 +179,7 @@ impl Machine {
             let life = g.life;
             g.life += 1;
             g.life_interactions = 0;
+            g.waits_for = 0;
             g.runaway = false;
             g.crashed = false;
             g.gates.clear();
@@ -191,6 +192,7 @@ impl Machine {
             let (c, s) = futures::executor::block_on(b.start());
             (Some(c), Box::pin(s))
         };
+        EMBEDDER_APPS.with(|e| *e.borrow_mut() = Some(app_set.clone()));
         // the app set is shared with the embedder, who may change it before the stream is first polled
         if let Some((i, how)) = lock(w).script.spoil_app_after_start {
             if !oneshot {
